@@ -31,6 +31,8 @@ fn run_child(harness: &str, cfg: Value) {
         "c05_drop" => Box::new(move || harness::queue::c05_drop(&cfg)),
         "c05_forget" => Box::new(move || harness::queue::c05_forget(&cfg)),
         "c09" => Box::new(move || harness::queue::c09(&cfg)),
+        "c06" => Box::new(move || harness::uow::c06(&cfg)),
+        "c13" => Box::new(move || harness::uow::c13(&cfg)),
         other => {
             eprintln!("unknown harness {other}");
             std::process::exit(2)
